@@ -299,6 +299,53 @@ def build_T7i(tree):
     return t1 + '\n\n' + t2, hashlib.sha256((_norm(gen[0]) + ''.join(_norm(a) for a in list(r) + list(c))).encode()).hexdigest()
 
 
+def build_T7j(tree):
+    """`utils.compute_plane_position_slide_per_frame`: one `PlanePositionSequence` per item of `iter_tiled_full_frame_data`, in
+    order; the element's arguments are translated as a function of the unpacked 7-tuple (which components become the pixel matrix
+    position, which the image position), the generator is pinned (no condition, no memo, nothing but the comprehension)."""
+    fn = find_func(tree, 'compute_plane_position_slide_per_frame')
+    body = strip_doc(fn.body)
+    if len(body) != 1 or not isinstance(body[0], ast.Return) or not isinstance(body[0].value, ast.ListComp):
+        raise Unsupported('compute_plane_position_slide_per_frame is no longer a single `return [ ... for ... ]`')
+    comp = body[0].value
+    if len(comp.generators) != 1 or comp.generators[0].ifs or comp.generators[0].is_async:
+        raise Unsupported('compute_plane_position_slide_per_frame: comprehension has conditions / several generators')
+    g = comp.generators[0]
+    if _norm(g.iter) != 'iter_tiled_full_frame_data(dataset)':
+        raise Unsupported('compute_plane_position_slide_per_frame no longer iterates over iter_tiled_full_frame_data(dataset)')
+    if not isinstance(g.target, ast.Tuple) or len(g.target.elts) != 7 or not all(isinstance(e, ast.Name) for e in g.target.elts):
+        raise Unsupported('compute_plane_position_slide_per_frame: the per-frame item is no longer unpacked into 7 names')
+    names = [e.id for e in g.target.elts]
+    elt = comp.elt
+    if not (isinstance(elt, ast.Call) and _norm(elt.func) == 'PlanePositionSequence' and not elt.args):
+        raise Unsupported('compute_plane_position_slide_per_frame: element is no longer PlanePositionSequence(keyword arguments)')
+    kws = {k.arg: k.value for k in elt.keywords}
+    if sorted(kws) != ['coordinate_system', 'image_position', 'pixel_matrix_position'] or \
+            _norm(kws['coordinate_system']) != 'CoordinateSystemNames.SLIDE':
+        raise Unsupported('compute_plane_position_slide_per_frame: keyword arguments of PlanePositionSequence changed')
+    ip, pm = kws['image_position'], kws['pixel_matrix_position']
+    if not (isinstance(ip, ast.Tuple) and len(ip.elts) == 3 and isinstance(pm, ast.Tuple) and len(pm.elts) == 2):
+        raise Unsupported('compute_plane_position_slide_per_frame: image_position / pixel_matrix_position are no longer tuples')
+    # positional names of the 7-tuple of iter_tiled_full_frame_data: channel, slice index, column, row, x, y, z; `_` may repeat
+    canon = ['it_channel', 'it_slice', 'it_column', 'it_row', 'it_x', 'it_y', 'it_z']
+    ren = {}
+    for n, cn in zip(names, canon):
+        ren[n] = cn          # a repeated name (`_`) keeps its LAST binding, as in Python
+
+    class R(ast.NodeTransformer):
+        def visit_Name(self, node):
+            return ast.copy_location(ast.Name(id=ren.get(node.id, node.id), ctx=node.ctx), node)
+    ret = ast.Return(value=ast.Tuple(elts=[R().visit(e) for e in list(pm.elts) + list(ip.elts)], ctx=ast.Load()))
+    block = _fresh([ret])
+    text = translate_block(block, 'slidePerFrameItem',
+                           [('it_channel', 'int'), ('it_slice', 'int'), ('it_column', 'int'), ('it_row', 'int'),
+                            ('it_x', 'rat'), ('it_y', 'rat'), ('it_z', 'rat')], {},
+                           doc='`utils.compute_plane_position_slide_per_frame`: (pixel_matrix_position[0], pixel_matrix_position[1], '
+                               'image_position x, y, z) of the PlanePositionSequence built for one item (channel, slice index, column, row, x, '
+                               'y, z) of `iter_tiled_full_frame_data`')
+    return text, span_sha(body)
+
+
 TARGETS = {
     'T7a': {'file': 'spatial.py', 'build': build_T7a},
     'T7b': {'file': 'spatial.py', 'build': build_T7b},
@@ -309,4 +356,5 @@ TARGETS = {
     'T7g': {'file': 'spatial.py', 'build': build_T7g},
     'T7h': {'file': 'spatial.py', 'build': build_T7h},
     'T7i': {'file': 'spatial.py', 'build': build_T7i},
+    'T7j': {'file': 'utils.py', 'build': build_T7j},
 }
